@@ -138,6 +138,19 @@ public:
     for (size_t i = 0; i < e->count_unknowns && i < e->residual.size(); i++) o << " " << hexd(e->residual[i]);
     o << "\n";
     e->residual = keep;
+    // one extra molalities() pass on the accepted state (values restored afterwards): what the assignment gives NOW
+    {
+      std::vector<double> klm(e->s_x.size()), kmol(e->s_x.size());
+      for (size_t i = 0; i < e->s_x.size(); i++) { klm[i] = e->s_x[i]->lm; kmol[i] = e->s_x[i]->moles; }
+      std::vector<double> kla(e->master.size());
+      for (size_t i = 0; i < e->master.size(); i++) kla[i] = e->master[i]->s ? e->master[i]->s->la : 0.0;
+      e->molalities(TRUE);
+      o << "l2";
+      for (size_t i = 0; i < e->s_x.size(); i++) o << " " << hexd(e->s_x[i]->lm);
+      o << "\n";
+      for (size_t i = 0; i < e->s_x.size(); i++) { e->s_x[i]->lm = klm[i]; e->s_x[i]->moles = kmol[i]; }
+      for (size_t i = 0; i < e->master.size(); i++) if (e->master[i]->s) e->master[i]->s->la = kla[i];
+    }
     // public read-outs (the functions behind the BASIC tokens)
     for (size_t i = 0; i < e->s_x.size(); i++) {
       const char* n = e->s_x[i]->name;
